@@ -152,7 +152,9 @@ theorem entitiesOk_of_memInv {d : Db} (hM : MemInv d) : entitiesOk d = true := b
     obtain ⟨h1, h2⟩ := hM.live _ hc
     simp only [core] at h1 h2
     have h3 := (hM.tracks_seq _ h2).1
-    simp [plExists_iff.mpr h1, h2, h3]
+    have h4 := hM.own _ hc
+    simp only [core] at h4
+    simp [plExists_iff.mpr h1, h2, h3, h4]
   · intro e he
     rw [Bool.not_eq_true', List.any_eq_false]
     intro e' he' hb
